@@ -219,7 +219,9 @@ class HiddenWorld(World):
     """
 
     def __init__(self, loop: VirtualLoop, n: int, flags: Any = None, auto: bool = True, net: SimNet | None = None,
-                 **settings: Any) -> None:
+                 service: bool = True, **settings: Any) -> None:
+        # service=False: the overlays run without an IPv8 service object (``HiddenTunnelSettings.ipv8 = None``, the
+        # library default): no PexCommunity is ever started
         from ipv8.messaging.anonymization.hidden_services import HiddenTunnelCommunity
         self.loop = loop
         self.net = net if net is not None else SimNet(loop, auto=auto)
@@ -232,7 +234,7 @@ class HiddenWorld(World):
             node = nodes_mod.Node(self.net, i)
             node.flags = set(flags(i)) if flags is not None else set(allf)
             stub = IPv8Stub(node)
-            ov = node.add(HiddenTunnelCommunity, ipv8=stub, dht_provider=DictDHT(self.dht_table), **settings)
+            ov = node.add(HiddenTunnelCommunity, ipv8=stub if service else None, dht_provider=DictDHT(self.dht_table), **settings)
             ov.settings.peer_flags = set(node.flags)
             stub.overlays.append(ov)
             node.stub = stub
